@@ -170,6 +170,8 @@ def call_seq(kind, vs, variant):
         vals = [(2.0, -1.0), (-1.0, 2.0), (0.0, 0.0)] if variant == 0 else [(-1.0, -1.0), (2.0, 0.0), (2.0, 2.0)]
         if variant >= 2:   # four calls: one object sees its extreme value first, the other one last
             vals = [(2.0, -1.0), (-1.0, 2.0), (0.0, 0.0), (-1.0, -1.0)] if variant == 2 else [(-1.0, -1.0), (0.0, 0.0), (-1.0, 2.0), (2.0, 0.0)]
+        if variant == 4:   # a peak followed by two lower samples: a window of one sample and a window of a thousand give different results
+            vals = [(0.0, 0.0), (2.0, -1.0), (-1.0, 2.0), (-1.0, -1.0)]
         return [('update', i, [[v, vals[i][k % 2]] for k, v in enumerate(vs)]) for i in range(len(vals))]
     if kind == 'dt_off':
         traces = [{'time': [0, 1], 'x': [2.0, -1.0], 'y': [-1.0, 2.0]}, {'time': [0, 1, 2], 'x': [-1.0, -1.0, 2.0], 'y': [2.0, 0.0, 0.0]},
@@ -218,9 +220,10 @@ def isolation_groups(tier):
     g2.append([('dt_on', 'out = once[1,6] x', ['x'], (), False, 2), ('dt_on', 'out = once[0,5] (x >= 0)', ['x'], (), False, 3)])
     g2.append([('dt_on', 'out = (once[0,4] x) and (once[0,5] y)', ['x', 'y'], (), False, 2), ('dt_on', 'out = historically[0,4] x', ['x'], (), False, 3)])
     # the same period NUMBER in different units, bounds with explicit units (tables keyed by the number alone would collide)
-    t7, t8 = 'out = once[0,2s] (x >= 0)', 'out = eventually[0,2s] x'
+    t7, t8 = 'out = once[0,1s] (x >= 0)', 'out = eventually[0,1s] x'
     g2 += [
-        [('dt_on', t7, ['x'], (), False, 2, (1, 's')), ('dt_on', t7, ['x'], (), False, 3, (1, 'ms'))],
+        [('dt_on', t7, ['x'], (), False, 2, (1, 's')), ('dt_on', t7, ['x'], (), False, 4, (1, 'ms'))],
+        [('dt_on', t7, ['x'], (), False, 4, (1, 'ms')), ('dt_on', t7, ['x'], (), False, 2, (1, 's'))],
         [('dt_off', t8, ['x'], (), False, 0, (1, 's')), ('dt_off', t8, ['x'], (), False, 1, (1, 'ms'))],
         [('dt_off', t8, ['x'], (), False, 0, (1, 'ms')), ('dt_on', t7, ['x'], (), False, 2, (1, 's')), ('dt_off', t8, ['x'], (), False, 1, (1, 's'))],
     ]
@@ -239,6 +242,18 @@ def make(obj):
     return impl.build(kind, text, vs, subspecs=subs, pastify=pastify, period=period)
 
 
+def fresh_process_baseline(obj, seq):
+    import json
+    import subprocess
+    import os
+    env = dict(os.environ)
+    r = subprocess.run([sys.executable, '-B', '-m', 'vf.alone'], input=json.dumps({'obj': list(obj), 'seq': seq}), capture_output=True, text=True,
+                       cwd=os.path.dirname(os.path.dirname(os.path.dirname(os.path.abspath(__file__)))), env=env, timeout=300)
+    if r.returncode != 0:
+        raise RuntimeError('baseline process failed: %s' % r.stderr[-400:])
+    return json.loads(r.stdout)
+
+
 def do_call(spec, call):
     name = call[0]
     args = copy.deepcopy(call[1:])
@@ -248,11 +263,22 @@ def do_call(spec, call):
 def run_isolation(shard, tier, res, mod):
     group = isolation_groups(tier)[shard['i']]
     seqs = [call_seq(o[0], o[2], o[5]) for o in group]
-    # isolated runs
+    # isolated runs: in a fresh interpreter in which no other specification object ever existed (a baseline computed in this long-lived
+    # worker would already be exposed to whatever earlier objects left behind at class or module level)
     alone = []
-    for o, seq in zip(group, seqs):
+    for oi, (o, seq) in enumerate(zip(group, seqs)):
+        base = fresh_process_baseline(o, seq)
         s = make(o)
-        alone.append([do_call(s, c) for c in seq])
+        here = [do_call(s, c) for c in seq]
+        res.evaluations += len(seq)
+        if [repr(x) for x in here] != base:
+            k = next(i for i, (a, b) in enumerate(zip(here, base)) if repr(a) != b)
+            res.violation(mod, {'mode': 'isolation_baseline', 'group': [list(g[:3]) + [list(g[3]), g[4], g[5]] + ([list(g[6])] if len(g) > 6 else []) for g in group],
+                                'object': oi, 'call': k},
+                          'object %d (%s `%s`%s) call %d returns %r in a process where other specification objects were used before, and %s in a fresh interpreter'
+                          % (oi, o[0], o[1], (' period %r' % (o[6],)) if len(o) > 6 else '', k + 1, here[k], base[k]))
+            res.outcomes['interference (earlier objects of the process)'] += 1
+        alone.append(here)
     # all merge orders
     labels = []
     for i, seq in enumerate(seqs):
@@ -414,6 +440,16 @@ def replay(case):
         a = a if a is not None else _raised(ao)
         b = b if b is not None else _raised(bo)
         return [] if a == b else ['outcome differs for seed %d: %s vs %s' % (case['seed'], a[:200], b[:200])]
+    if mode == 'isolation_baseline':
+        group = [tuple(o[:3]) + (tuple(o[3]), o[4], o[5]) + ((tuple(o[6]),) if len(o) > 6 else ()) for o in case['group']]
+        seqs = [call_seq(o[0], o[2], o[5]) for o in group]
+        for oi, (o, seq) in enumerate(zip(group, seqs)):   # the objects of the group one after the other in this process
+            base = fresh_process_baseline(o, seq)
+            s = make(o)
+            here = [repr(do_call(s, c)) for c in seq]
+            if here != base:
+                return ['object %d returns %r after the other objects of the group were used in the process, %r in a fresh interpreter' % (oi, here, base)]
+        return []
     if mode == 'isolation':
         group = [tuple(o[:3]) + (tuple(o[3]), o[4], o[5]) + ((tuple(o[6]),) if len(o) > 6 else ()) for o in case['group']]
         seqs = [call_seq(o[0], o[2], o[5]) for o in group]
